@@ -267,7 +267,8 @@ def process_item(mod, cfg, st, rng, tier):
             core.ENG.assume(pre)
         return mod.run(cfg, V)
 
-    with shims.installed(std_fraction=getattr(mod, "STD_FRACTION", None)):
+    sf = mod.std_fraction(cfg) if hasattr(mod, "std_fraction") else getattr(mod, "STD_FRACTION", None)
+    with shims.installed(std_fraction=sf):
         try:
             paths = eng.explore(body)
         except Abort as e:
